@@ -40,12 +40,16 @@ CHECKS = {
          "a race is found when both accesses occur in one run (happens-before detector), in any order; weak-memory effects a race-free program cannot observe are out of scope", "deterministic simulation under ThreadSanitizer (hidden scheduler hand-off) and AddressSanitizer"),
  "C12": ("fault_enumeration", "each plan is executed fault-free while every libc file call is counted per (call kind, file class); fault sites (open/creat, write, fsync, rename, unlink, close, mkdir, link, read, mmap, opendir x log/table/MANIFEST/CURRENT/temp/dir x ordinal; all ordinals when <=4, first/last/2 random otherwise) are then enumerated with ENOSPC/EIO/EMFILE/ENOENT/EACCES, one-shot or persistent, optionally after a partial write, plus short-write/short-read/EINTR noise; the plan is re-executed once per site (capped per plan), faults are cleared, the database is closed or killed, reopened and compared. Oracle: no call errs before a fault fired; reads are exact or report an error in a call that was failed; no crash, deadlock or sanitizer report; reopen succeeds; every acknowledged batch is present and contents are a fold of whole batches.", "6, 7 C12",
          "'surfaces as an error status' is checked through its consequences (an acknowledged write is never lost); deliberately ignored failures (unlink of an obsolete file, close of a read-only file) are not required to surface; stat/access/lseek failures are outside the property's fault list", "deterministic simulation: per-call fault-site enumeration with reopen comparison"),
+ "C11": ("fault_enumeration", "a seeded history builds a small multi-level database (several tables with filter blocks, non-empty log, multi-record MANIFEST) that is closed cleanly; one fault at a time is applied: every byte of each table's footer, index block, metaindex block and every block trailer is enumerated, filter and data-block bodies are sampled; alterations are a single-bit flip, 0x00, 0xFF, truncation at the offset and a zeroed 512-byte sector (thorough: all eight bit flips at every enumerated position); log/MANIFEST/CURRENT positions are sampled (CURRENT: all). Each damaged image is opened with paranoid_checks=1 and read with verify_checksums=1: every get of every key is the model value or an error; a scan with OK status equals the model in both directions; a scan with an error yields only pairs that were written; metadata damage yields a fold of whole batches or a failed open. Runs under ASan+UBSan on part of the workers.", "7 C11",
+         "one fault per image; damage behind a valid CRC (not producible by a disk) is out of scope; mutations per database are capped (uniform subsample of the enumeration) in the quick tier", "deterministic simulation: structure-aware enumeration of stored-byte damage"),
+ "C15": ("exploration", "in-family part only: the real writer over the real buffered file over the simulated file system appends seeded record sequences (lengths biased to 0, 1, block-size edges +-8, up to 1 MiB) in one or more sessions (log reuse appends at the current size); bytes on disk must equal an independent encoder's output; the real reader reads back fault-free (also under short reads/EINTR), under cuts at every byte of the tail, around every record boundary and block boundary (exactly the records wholly before the cut, no report), and under bit/byte/multi-byte/sector damage (nothing invented, records before the damage and in later intact blocks returned, every drop reported unless the image is a legal torn tail, and agreement with an independent decoder). The exhaustive length x offset sweep and the CRC alignment sweep are pure-input properties and are not claimed.", "7 C15",
+         "a zero header followed only by zeros to the end of its block is treated as a legal (preallocated/zero-extended) tail: no report required there", "deterministic simulation: real writer/reader over the simulated file with torn tails and stored-byte damage, judged by an independent codec"),
 }
 NOT_APPLICABLE = [
  ("C16", "pure function of (entries, options): no schedule, clock, crash or I/O fault to search; tables produced by simulated histories are decoded independently as part of C14/C11/C19 but C16 itself is not claimed"),
  ("C18", "totality/memory safety on arbitrary bytes is quantified over inputs only (fuzzing, not fault/schedule search); disk-producible damage is exercised under ASan+UBSan by C11 but C18 is not claimed"),
 ]
-WIP = [ "C11", "C15", "C19", "C20"]
+WIP = ["C19", "C20"]
 
 def main():
     checks = []
